@@ -97,6 +97,11 @@ def run_history(case, root, u, schedules, name='h', base_args=('-r', 'T')):
             posn, e, status, snap, alive_after = d
             if status != 'ok':
                 continue
+            interleaved = isinstance(e, dict) and 'interleaved' in e
+            if interleaved:
+                e = e['interleaved']
+                summary['interleaved_events'] = summary.get('interleaved_events', 0) + 1
+                d = [posn, e, status, snap, alive_after, True]
             if e == 'q':
                 if quit_ev is None:
                     quit_ev = d
@@ -146,8 +151,11 @@ def run_history(case, root, u, schedules, name='h', base_args=('-r', 'T')):
                         stopped_in_level = True
                     else:
                         raise Violation('quit_inside_preterminal', f'run {ri}: quit stopped at stream position {a}, inside a non-Markov pre-terminal', case)
-                # promptness: not past the end of the pre-terminal in progress when the request arrived
-                if not at_guess:
+                # promptness: not past the end of the pre-terminal in progress when the request arrived (not judged for an
+                # interleaved request: the keyboard thread is still working on it while generation goes on)
+                if len(quit_ev) > 5:
+                    pass
+                elif not at_guess:
                     if len(L) != ng:
                         raise Violation('quit_late', f'run {ri}: quit requested between two pre-terminals after {ng} guesses but {len(L)} were written', case)
                 else:
